@@ -22,7 +22,7 @@ class Mirror:
 
     def fail(self, what, why):
         if len(self.fails) < 5:
-            self.fails.append(("# session (commands sent to `verifharness db`):\n" + "\n".join(self.db.log[-300:]) + "\n# at: " + what, why))
+            self.fails.append(("# session (commands sent to `verifharness db`):\n" + "\n".join(self.db.log[-4000:]) + "\n# at: " + what, why))
 
     def open(self):
         r = self.db.open()
